@@ -594,20 +594,47 @@ fn token_binder(cfg: &Cfg, rep: &mut Report, h: u64, steps: usize, to_max: bool)
     e.mock_all_auths();
     let c = e.register(BinderC, ());
     let universe: usize = if to_max { 10_300 } else { 420 };
+    if to_max {
+        crate::world::set_budget_scale(32);
+    }
     let toks: Vec<Address> = (0..universe).map(|_| <Address as soroban_sdk::testutils::Address>::generate(e)).collect();
     let mut bound: Vec<usize> = vec![]; // as a set; order irrelevant
     let mut is_bound = vec![false; universe];
     let mut next_fresh = 0usize;
+    // addresses are compared by the host; their XDR form hashes natively (10 000 look-ups per step)
+    let sc = |a: &Address| -> soroban_sdk::xdr::ScAddress { a.try_into().unwrap() };
+    let idx_of: std::collections::HashMap<soroban_sdk::xdr::ScAddress, usize> = toks.iter().enumerate().map(|(i, a)| (sc(a), i)).collect();
     for step in 0..steps {
         // (rarely) far beyond every lifetime extension the library asks for: a registry must not forget
         if rng.chance(1, 40) {
             w.set_ledger(w.ledger() + 600_000);
             rep.count("ledger_jumps");
         }
-        let k = rng.below(100);
+        let mut k = rng.below(100);
+        // the capacity run fills up in large batches first and then stays near the limit
+        let far_from_limit = to_max && bound.len() + 200 < 10_000;
+        if far_from_limit && rng.chance(9, 10) {
+            k = 30;
+        }
         let (desc, want, r): (String, bool, Result<(), Fail>);
         if k < 20 {
-            let t = if rng.chance(1, 6) && !bound.is_empty() { *rng.pick(&bound) } else { let x = next_fresh % universe; next_fresh += 1; x };
+            let t = if rng.chance(1, 6) && !bound.is_empty() {
+                *rng.pick(&bound)
+            } else if to_max {
+                let mut x = next_fresh % universe;
+                while is_bound[x] {
+                    x = (x + 1) % universe;
+                }
+                next_fresh += 1;
+                x
+            } else {
+                let x = next_fresh % universe;
+                next_fresh += 1;
+                x
+            };
+            if bound.len() == 10_000 && !is_bound[t] {
+                rep.count("single_bind_at_capacity");
+            }
             want = !is_bound[t] && bound.len() < 10_000;
             desc = format!("bind_token(T{t})");
             r = invoke(e, &c, "bind_token", args!(e, toks[t].clone()));
@@ -620,21 +647,45 @@ fn token_binder(cfg: &Cfg, rep: &mut Report, h: u64, steps: usize, to_max: bool)
             let mut n = *rng.pick(&[1usize, 2, 50, 99, 100, 101, 150, 200, 201]);
             // close to the capacity: a batch that fills the binder exactly, or goes one past
             let room = 10_000usize.saturating_sub(bound.len());
-            if to_max && room >= 1 && room <= 200 {
-                n = if rng.chance(1, 2) { room } else { room + 1 };
-                rep.count(if n == room { "batch_fills_binder_exactly" } else { "batch_one_past_capacity" });
+            if far_from_limit {
+                n = *rng.pick(&[200usize, 200, 199, 150, 101]);
             }
-            let mut batch: Vec<usize> = (0..n).map(|j| (next_fresh + j) % universe).collect();
+            let mut exact = false;
+            if to_max && room >= 1 && room <= 200 && rng.chance(3, 4) {
+                n = if rng.chance(1, 2) { room } else { (room + 1).min(200) };
+                exact = n == room;
+            }
+            let mut batch: Vec<usize> = if to_max {
+                // most of the universe ends up bound: take tokens that are not
+                let mut v = vec![];
+                let mut t = next_fresh % universe;
+                while v.len() < n {
+                    if !is_bound[t] {
+                        v.push(t);
+                    }
+                    t = (t + 1) % universe;
+                }
+                v
+            } else {
+                (0..n).map(|j| (next_fresh + j) % universe).collect()
+            };
             next_fresh += n;
-            let dup = rng.chance(1, 12) && n >= 2;
+            let dup = rng.chance(1, 12) && n >= 2 && !exact;
             if dup {
                 batch[n - 1] = batch[0];
             }
-            let clash = rng.chance(1, 12) && !bound.is_empty();
+            let clash = rng.chance(1, 12) && !bound.is_empty() && !exact;
             if clash {
                 batch[n / 2] = *rng.pick(&bound);
             }
             let (bs, nd) = as_set(&batch);
+            if to_max && !dup && !clash && room <= 200 && bs.iter().all(|t| !is_bound[*t]) {
+                if n == room {
+                    rep.count("batch_fills_binder_exactly");
+                } else if n == room + 1 {
+                    rep.count("batch_one_past_capacity");
+                }
+            }
             want = n <= 200 && bound.len() + n <= 10_000 && nd && bs.iter().all(|t| !is_bound[*t]);
             let mut tv: SVec<Address> = SVec::new(e);
             for t in &batch {
@@ -674,8 +725,7 @@ fn token_binder(cfg: &Cfg, rep: &mut Report, h: u64, steps: usize, to_max: bool)
         }
         // getters
         let lt: SVec<Address> = getv!(rep, "token-binder", e, &c, "linked_tokens", args!(e));
-        let idx_of: BTreeMap<Address, usize> = toks.iter().enumerate().map(|(i, a)| (a.clone(), i)).collect();
-        let lv: Vec<usize> = lt.iter().map(|a| *idx_of.get(&a).unwrap_or(&usize::MAX)).collect();
+        let lv: Vec<usize> = lt.iter().map(|a| *idx_of.get(&sc(&a)).unwrap_or(&usize::MAX)).collect();
         let (ls, nd) = as_set(&lv);
         let ws: BTreeSet<usize> = bound.iter().cloned().collect();
         rep.check("ref", ls == ws && nd, "C20/ref/token-binder/linked_tokens", || format!("linked_tokens has {} entries ({} distinct), model {}", lv.len(), ls.len(), ws.len()));
@@ -685,7 +735,7 @@ fn token_binder(cfg: &Cfg, rep: &mut Report, h: u64, steps: usize, to_max: bool)
         for i in probes.iter() {
             match invoke::<Address>(e, &c, "get_token_by_index", args!(e, *i)) {
                 Ok(a) => {
-                    let t = *idx_of.get(&a).unwrap_or(&usize::MAX);
+                    let t = *idx_of.get(&sc(&a)).unwrap_or(&usize::MAX);
                     rep.check("ref", t < universe && is_bound[t], "C20/ref/token-binder/get_token_by_index", || format!("index {i} -> token {t}, which is not bound"));
                     if cnt <= 64 {
                         rep.check("ref", seen.insert(t), "C20/ref/token-binder/index-enumerates-twice", || format!("token {t} at two indices"));
@@ -707,6 +757,7 @@ fn token_binder(cfg: &Cfg, rep: &mut Report, h: u64, steps: usize, to_max: bool)
         }
         rep.evaluations += probes.len() as u64 + 6;
     }
+    crate::world::set_budget_scale(1);
     rep.end_history();
 }
 
@@ -1185,9 +1236,10 @@ pub fn run(cfg: &Cfg, rep: &mut Report) {
         }
     }
     if cfg.thorough() {
-        // capacity runs: one shard each
+        // capacity runs: one shard each (a batch of 200 costs the contract 200 x count/100 bucket reads:
+        // filling the binder takes minutes, which the quick tier does not have)
         if cfg.shard == 0 && cfg.runs(900_001) {
-            token_binder(cfg, rep, 900_001, 260, true);
+            token_binder(cfg, rep, 900_001, 400, true);
         }
         if cfg.shard == 1 && cfg.runs(900_002) {
             documents(cfg, rep, 900_002, 5_600, true);
@@ -1198,5 +1250,11 @@ pub fn run(cfg: &Cfg, rep: &mut Report) {
     rep.floor_on("rules_at_limit", 1, &["rules_at_limit"]);
     rep.floor_on("topics_at_limit", 1, &["topics_at_limit"]);
     rep.floor_on("modules_at_limit", 1, &["modules_at_limit"]);
+    if cfg.thorough() {
+        rep.floor_on("single_bind_at_capacity", 1, &["single_bind_at_capacity"]);
+        rep.floor_on("binder_at_max", 1, &["binder_at_max"]);
+        rep.floor_on("batch_fills_binder_exactly", 1, &["batch_fills_binder_exactly"]);
+        rep.floor_on("batch_one_past_capacity", 1, &["batch_one_past_capacity"]);
+    }
     let _ = (Symbol::new, Env::default);
 }
